@@ -12,26 +12,32 @@ META = {
     "technique": "Coq proof about a codec model generic in the layout table + translator (X-macro tables of mjxmacro.h, "
                  "table-like parts of engine_io.c, cross-checked against the preprocessor) + exact correspondence with "
                  "mj_saveModel/mj_sizeModel/mj_loadModelBuffer on mjSpec-built models and corrupted copies of their files",
-    "text": "Proved in Coq for EVERY layout table (any size fields, arrays, struct blocks, header): decode(encode m) = Ok m and "
-            "length(encode m) = sizeModel m for every well-formed model; every proper prefix of a valid file (crash truncation) is "
-            "rejected; a buffer with trailing bytes is never accepted; acceptance implies length = sizeModel and header equal to the "
-            "expected header field by field; every read of the input buffer by the loader lies inside it (instrumented reader); "
-            "acceptance implies every entry of every array of the regenerated MJMODEL_REFERENCES table is in bounds (partial: only "
-            "the table part of mj_validateReferences, arithmetic in Z, so without the int overflow of adr+num). Writes into the model "
-            "buffer are proved in bounds only for layouts whose array lengths depend on mj_makeModel arguments alone; the regenerated "
-            "layout of /repo is NOT such a layout (nnames_map) and the opposite is proved for it by a computed witness "
-            "(C31_write_outside_model_refuted), replayed on the implementation on every run. Tied to the code by the translator and "
-            "by exact comparison on every run: file bytes, mj_sizeModel, file offset of every array (found by perturbation), "
-            "in-memory offsets, nbuffer, and the accept/reject decision with its warning for truncations at every length (thorough) "
-            "or sampled (quick), header/size-field/reference corruptions, appended bytes. NOT covered: the special-case logic of "
-            "mj_validateReferences after the table (only observed), references not listed in the table (oracle only), the leak on a "
-            "rejected file, allocation failure for huge sizes.",
+    "text": "Proved in Coq for EVERY well-formed layout table (any size fields, arrays, struct blocks, header; Gen/ModelLayout.v is the "
+            "instance regenerated from the tree): decode(encode m) = Ok m and length(encode m) = sizeModel m for every well-formed model "
+            "(what a compiled model satisfies; evaluated on every implementation model of the run); every proper prefix of a valid file "
+            "(crash truncation) and every valid file with trailing bytes is rejected; for ANY buffer: acceptance implies length = sizeModel "
+            "of the loaded model and the expected header field by field (a wrong header is rejected at its first wrong field); every read "
+            "of the input buffer by the instrumented loader lies inside it; every write into the model buffer has exactly the allocated "
+            "length and lies inside m->buffer, PROVIDED every array length depends only on mj_makeModel arguments or on a derived field the "
+            "loader compares (sizes_checked) - proved by computation for the regenerated layout (it fails when the nnames_map comparison of "
+            "fix a49cae9b1 is removed; Proof/MJBProof.v overflow_witness then is a concrete overflowing file, replayed on the "
+            "implementation on every run). PARTIAL (reference validation): acceptance implies every entry of every array of the regenerated "
+            "MJMODEL_REFERENCES table is in bounds (-1 <= adr, 0 <= num, adr+num <= target) when adr+num is computed in 64 bits (flag "
+            "regenerated from the source; obligation fails if fix 9176e92d2 is reverted); the hand-written checks after the table are not "
+            "modelled (observed only), arrays absent from the table are covered only by the oracle's own list on the models of the run. "
+            "Tied to the code on every run by the fail-closed translator (X-macro tables cross-checked against the preprocessor, table-like "
+            "parts and order of tests of engine_io.c) and by exact comparison: file bytes, mj_sizeModel, file offset of every array (found "
+            "by perturbing it), in-memory offsets, nbuffer, save/load/re-save identity on random mjgen models, and the accept/reject "
+            "decision WITH its warning for truncations (every length for small models in thorough, section boundaries + random in quick), "
+            "every header byte/field, every size field, consistent size+nbuffer edits, nnames_map edits, every non-empty reference array "
+            "set out of range, appended and random bytes. NOT covered: the leak on a rejected file, allocation failure for huge sizes "
+            "(harness allocator refuses > 64 MiB), mj_loadModel's file reading (only the buffer API), XML/MJCF.",
     "note": "Trusted: Coq kernel; hand-written model Model/MJB.v of the order of tests in mj_loadModelBuffer/mj_makeModel (tied by "
-            "differential runs only); translator translate/xmacro2v.py + gcc for sizeof/constants; driver c31_mjb.c (canary allocator, "
-            "guard page after the input buffer, fork per case). Theorems are closed under the global context.",
+            "differential runs, reason by reason); translator translate/xmacro2v.py + gcc for sizeof/constants; driver c31_mjb.c (canary "
+            "allocator, inaccessible page after the input buffer, forked workers). All theorems closed under the global context.",
     "assumptions": ["buffer_sz = length of the buffer and 0 <= buffer_sz <= INT_MAX (the API takes an int)",
                     "little-endian 4-byte int / 8-byte mjtSize (checked by the translator's info program and the byte-exact comparison)",
-                    "mju_malloc succeeds (sizes leading to allocations above 1 GiB are not compared)"],
+                    "mju_malloc succeeds (sizes leading to allocations above 64 MiB are not compared)"],
 }
 
 INT_MAX = 2147483647
@@ -74,6 +80,12 @@ ORACLE_REFS = {
     "B_rowadr": ("nB", "B_rownnz"), "M_rowadr": ("nC", "M_rownnz"), "D_rowadr": ("nD", "D_rownnz"),
     "B_colind": ("nv", None), "M_colind": ("nv", None), "D_colind": ("nv", None),
 }
+
+# arrays for which mjmodel.h documents -1 as "none" (or whose -1 entries occur in valid models); every other array
+# of ORACLE_REFS has no "none" value: a negative entry is out of bounds
+ORACLE_OPTIONAL = {"body_mocapid", "body_treeid", "body_jntadr", "body_dofadr", "body_geomadr", "body_bvhadr", "dof_parentid",
+                   "geom_matid", "site_matid", "cam_targetbodyid", "light_targetbodyid", "light_texid", "mat_texid", "tendon_matid",
+                   "tendon_actuatorid", "tendon_treeid", "jnt_actuatorid", "actuator_actadr", "actuator_ctrladr", "actuator_outadr"}
 
 CODEC_WARN = [
     ("Model file has an incomplete header", (1, 0)),
@@ -152,6 +164,11 @@ def classify(meta, kind, first, last):
         for j, rf in enumerate(meta["refs"]):
             if rf["num_name"] == m.group(1):
                 return (13, j)
+    m = re.fullmatch(r"Invalid model: (\w+) is negative\.", w)
+    if m:
+        for j, q in enumerate(meta["reqs"]):
+            if q["name"] == m.group(1):
+                return (19, j)
     m = re.fullmatch(r"Invalid model: (\w+) out of bounds\.", w)
     if m:
         for j, rf in enumerate(meta["refs"]):
@@ -486,7 +503,7 @@ Definition check_case (c : Z * Z * list (Z * Z) * list Z * (Z * Z) * Z * Z) : bo
             tgtname = ORACLE_REFS[name][0] if name in ORACLE_REFS else [rf for rf in meta["refs"] if rf["name"] == name][0]["tgt_name"]
             tgt = im.sizes[sidx[tgtname]]
             nel = nb // 4
-            vals = [tgt, -2, INT_MAX, tgt + 1000000, -1, tgt - 1]
+            vals = [tgt, -1, INT_MAX, -2, tgt + 1000000, tgt - 1]
             if not thorough:
                 vals = vals[:3] if k == 2 else rng.sample(vals, 1)
             for v in vals:
@@ -502,6 +519,12 @@ Definition check_case (c : Z * Z * list (Z * Z) * list Z * (Z * Z) * Z * Z) : bo
         for rep in range(200 if thorough else 25):
             kb = rng.randrange(1, 4)
             add(k, "rand-any", patches=[(rng.randrange(n), rng.randrange(256)) for _ in range(kb)], dump=1)
+    rp = getattr(ctx, "replay", None)
+    if rp and isinstance(rp.get("case"), dict) and "patches(offset,byte)" in rp["case"] and rp["case"].get("model") in good:
+        rc_ = rp["case"]                 # --replay: exactly that corrupted buffer
+        cases = [{"model": rc_["model"], "tag": rc_.get("tag", "replay"), "trunc": rc_["truncate_to"],
+                  "patches": [tuple(x) for x in rc_["patches(offset,byte)"]], "nappend": rc_["appended"],
+                  "seed": rc_["append_seed"], "dump": 1, "fwd": 1, "info": rc_.get("info")}]
     inp = []
     curk = None
     for i, c in enumerate(cases):
@@ -557,7 +580,7 @@ Definition check_case (c : Z * Z * list (Z * Z) * list Z * (Z * Z) * Z * Z) : bo
             res[int(t[1])]["fwd"] = (t[2].split("=")[1], int(t[3].split("=")[1]), em.strip())
 
     def case_desc(c):
-        return {"model": c["model"], "tag": c["tag"], "truncate_to": c["trunc"], "patches(offset,byte)": c["patches"][:24],
+        return {"model": c["model"], "tag": c["tag"], "truncate_to": c["trunc"], "patches(offset,byte)": c["patches"],
                 "appended": c["nappend"], "append_seed": c["seed"], "info": c["info"]}
 
     coq_cases = []
@@ -606,20 +629,28 @@ Definition check_case (c : Z * Z * list (Z * Z) * list Z * (Z * Z) * Z * Z) : bo
                     nums = struct.unpack("<%di" % (len(rawn) // 4), rawn[:4 * (len(rawn) // 4)])
                 for e, v in enumerate(vals):
                     nmv = nums[e] if nums and e < len(nums) else 1
-                    if v < -1 or nmv < 0 or v + nmv > ds[tgtname]:
+                    lo = -1 if name in ORACLE_OPTIONAL else 0
+                    if v < lo or nmv < 0 or v + nmv > ds[tgtname]:
                         inrefs = name in refnames
-                        defect = "adr_plus_num_int_overflow" if (inrefs and v + nmv > INT_MAX) else "reference_array_not_validated"
+                        if inrefs and v + nmv > INT_MAX:
+                            defect = "adr_plus_num_int_overflow"
+                        elif inrefs and v == -1:
+                            defect = "negative_reference_accepted"
+                        else:
+                            defect = "reference_array_not_validated"
                         ctx.violation("impl_violation", dict(case_desc(c), array=name, element=e, value=v, num=nmv, target=ds[tgtname]),
-                                      expected="accepted model has -1 <= %s[i] and %s[i]+num <= %s" % (name, name, tgtname),
+                                      expected="accepted model has %d <= %s[i] and %s[i]+num <= %s" % (lo, name, name, tgtname),
                                       observed="%s[%d] = %d (num %d), %s = %d, accepted without warning" % (name, e, v, nmv, tgtname, ds[tgtname]),
-                                      theorem="C31_validate_partial",
+                                      theorem="C31_validate_required_partial" if defect == "negative_reference_accepted" else "C31_validate_partial",
                                       signature={"site": "mj_validateReferences", "defect": defect, "array": name})
                         break
         if r["fwd"] is not None and (r["fwd"][0] == "crash" or r["fwd"][1] > 0):
             name = c["info"][0] if c["tag"] == "ref" else None
+            neg = c["tag"] == "ref" and c["info"][2] == -1
             ctx.violation("impl_violation", case_desc(c), expected="an accepted model can be simulated without leaving its buffers",
                           observed="mj_makeData/mj_forward/mj_step on the accepted model: %s" % (r["fwd"],), theorem="C31_validate_partial",
-                          signature={"site": "mj_validateReferences", "defect": "reference_array_not_validated", "array": name})
+                          signature={"site": "mj_validateReferences", "defect": "negative_reference_accepted" if neg else
+                                     "reference_array_not_validated", "array": name})
         coq_cases.append("mkc %d %d %s %s %d %d %d %d" % (
             c["model"], c["trunc"], ("[" + ";".join("(%d,%d)" % p for p in c["patches"]) + "]") if c["patches"] else "(@nil (Z*Z))",
             zl(lcg_bytes(c["seed"], c["nappend"])), code[0], code[1], r["canary"] if r["canary"] >= 0 else 0, ALLOC_LIMIT))
